@@ -4,6 +4,7 @@ package wm
 
 import (
 	"fmt"
+	"github.com/teivah/majorana/proc/comp"
 	"os"
 	"strings"
 
@@ -145,13 +146,27 @@ var triggers = []trigger{
 		// "memory address should exist", "invalid state", a stale Shared copy.
 		id: "KF-W10", props: wmProps,
 		match: func(c *core.Case, f *features, class string, v *core.Verdict) bool {
-			if c.Cfg.V < mach.MVP70 || c.Cfg.Cores < 2 || !f.conflictSameLine || f.redirects == 0 {
+			if c.Cfg.V < mach.MVP70 || c.Cfg.Cores < 2 || f.redirects == 0 || f.loads+f.stores == 0 {
 				return false
 			}
-			if isMismatch(class) {
-				return f.tConflict.explainsClass(class, v)
+			if isMismatch(class) && !(f.conflictSameLine && f.tConflict.explainsClass(class, v)) {
+				return false
 			}
-			return true
+			// the defect itself must have happened in this run (observed on the
+			// machine through the read-only snapshot hook): a line lock given up
+			// while a snoop command for that line was still outstanding
+			return orphanSnoopEvent(c)
+		},
+	},
+	{
+		// MVP-8 with two or more cores (whole-machine face of KF-C13-2): two
+		// insertions into the shared L3 while a victim still awaits its
+		// write-back report the same victim twice; the second l3WriteBack
+		// command finds no line.
+		id: "KF-W12", props: wmProps,
+		match: func(c *core.Case, f *features, class string, v *core.Verdict) bool {
+			return c.Cfg.V == mach.MVP80 && c.Cfg.Cores >= 2 && f.l3Lines > 32 &&
+				strings.HasPrefix(baseClass(class), "panic:proc/mvp8-0.(*cacheController).coSnoop")
 		},
 	},
 	{
@@ -342,5 +357,64 @@ func wrongPathReadsDifferingValue(c *core.Case) bool {
 			}
 		}
 	})
+	return found
+}
+
+type verifSnapshotter interface {
+	VerifSnapshot() comp.VerifSnap
+}
+
+// orphanSnoopEvent re-runs the case on its machine and reports whether, at
+// some tick, a snoop command that was outstanding at the previous tick is
+// still outstanding while the lock count of its line has gone down: in normal
+// operation the requester keeps the line lock until its commands are done and
+// every other locker of that line waits for the same commands, so only a
+// cancelled request (KF-R3) gives a lock up early.
+func orphanSnoopEvent(c *core.Case) bool {
+	ref := isa.Exec(c.Prog, c.Init, 20000, true)
+	if !ref.End.WellFormed() {
+		return false
+	}
+	app, err := core.Parse(c.Prog)
+	if err != nil {
+		return false
+	}
+	type key struct {
+		core int
+		addr int32
+		req  int32
+	}
+	type locks struct{ r, w int }
+	prev := map[key]locks{}
+	found := false
+	done := core.InstallSched(c.Sched)
+	mach.Run(c.Cfg, app, c.Init, core.BudgetTicks(len(ref.Trace))/budgetDivisor, &mach.Hooks{Tick: func(vm mach.VM, cycle int) {
+		if found {
+			return
+		}
+		sn, ok := vm.(verifSnapshotter)
+		if !ok {
+			return
+		}
+		s := sn.VerifSnapshot()
+		sem := map[int32]locks{}
+		for _, x := range s.Sems {
+			sem[x.Addr] = locks{x.Read, x.Write}
+		}
+		cur := map[key]locks{}
+		for _, cmd := range s.Commands {
+			if cmd.Done {
+				continue
+			}
+			k := key{cmd.Core, cmd.Addr, cmd.Request}
+			l := sem[cmd.Addr]
+			if p, ok := prev[k]; ok && (l.r < p.r || l.w < p.w) {
+				found = true
+			}
+			cur[k] = l
+		}
+		prev = cur
+	}})
+	done()
 	return found
 }
